@@ -1883,7 +1883,9 @@ class ProppatchMethod(Method):
                     )
                 ]
             )
-        yield Status(request.path, propstat=propstat)
+        if COLLECTION_RESOURCE_TYPE in resource.resource_types:
+            href = ensure_trailing_slash(href)
+        yield Status(href, propstat=propstat)
 
 
 class MkcolMethod(Method):
